@@ -642,7 +642,7 @@ def rule_R5(text, log):
         # pub fns that mention private fields, so everything is made module-private
         text = re.sub(r'\bpub(?:\((?:crate|super)\))? ', '', text)
         log.append({'rule': 'R5', 'before': 'pub / pub(crate) / pub(super)', 'after': '', 'count': n})
-    for p in (r'super::error::', r'crate::parser::error::'):
+    for p in (r'super::error::', r'crate::parser::error::', r'crate::parser::(?:strings|array|inline_table|trivia|numbers)::'):
         n = len(re.findall(p, text))
         if n:
             text = re.sub(p, '', text)
@@ -1158,6 +1158,9 @@ def extract_unit(spec_path, repo, out_path, meta_path=None, canary=None):
             if ms[0].group(1) != item.get('first', 'any'):
                 raise LostAnchor('dispatch_table %s: dispatches on %s, not on %s' % (item['name'], ms[0].group(1), item.get('first', 'any')))
             i = lo_off + ms[0].end()
+            # comments inside the macro body are blanked (same length) so that quotes and brackets
+            # in them cannot confuse the arm splitter
+            t = t[:i] + re.sub(r'//[^\n]*', lambda mm: ' ' * len(mm.group(0)), t[i:hi_off]) + t[hi_off:]
             # split the arms at top-level commas up to the closing brace of dispatch!
             arms, depth, cur, j = [], 0, '', i
             while True:
@@ -1203,8 +1206,23 @@ def extract_unit(spec_path, repo, out_path, meta_path=None, canary=None):
                 if '=>' not in arm:
                     raise Unsupported('dispatch_table %s: cannot parse arm %r' % (item['name'], arm.strip()[:60]))
                 pat, rhs = arm.split('=>', 1)
-                mv = re.fullmatch(r"\s*empty\.value\((.+)\)\s*", rhs, re.S)
-                new_rhs = 'Some(%s)' % mv.group(1).strip() if mv else 'None'
+                if 'arm_classes' in item:
+                    # unit-declared abstraction of an arm: the first regex that matches the arm's
+                    # parser expression (whitespace-normalised) gives its class; an arm no regex
+                    # matches is an unsupported construct (exit 2), never a silent default
+                    flat = ' '.join(rhs.split())
+                    new_rhs = None
+                    for rx, rep_ in item['arm_classes']:
+                        mm = re.search(rx, flat)
+                        if mm:
+                            new_rhs = mm.expand(rep_)
+                            break
+                    if new_rhs is None:
+                        raise Unsupported('dispatch_table %s: arm not classified: %s' % (item['name'], flat[:100]))
+                else:
+                    mv = re.fullmatch(r"\s*empty\.value\((.+)\)\s*", rhs, re.S)
+                    new_rhs = 'Some(%s)' % mv.group(1).strip() if mv else 'None'
+                pat = rewrite(pat)
                 out_arms.append('        %s => %s,' % (pat.strip(), new_rhs))
                 log.append({'rule': 'R15', 'before': ' '.join(arm.split())[:160], 'after': '%s => %s' % (pat.strip(), new_rhs),
                             'fn': item['name'], 'file': rel, 'line': line})
